@@ -155,3 +155,93 @@ Check C17_fixed_agrees_elsewhere : forall A v a b ua ub,
   resolve_unit a = UOk ua -> resolve_unit b = UOk ub -> u_ids ua <> u_ids ub ->
   convert_fixed A v a b = convert A v a b.
 Print Assumptions C17_fixed_agrees_elsewhere.
+
+(* ---- the regenerated table is well formed (finite: every unit of the table) ------------------
+   every coefficient is positive, non-zero, and its dumped decimal rounds (rn_decimal) to its dumped
+   bits; the two function pointers of every temperature unit are an inverse pair *)
+Theorem C17_table_wellformed : forall u, In u all_units -> unit_wf u = true.
+Proof. exact table_wellformed. Qed.
+Check C17_table_wellformed : forall u, In u all_units -> unit_wf u = true.
+Print Assumptions C17_table_wellformed.
+
+(* the five transcribed temperature functions reproduce, bit for bit, what the function pointers of
+   the built crate returned on the probe points (ties the translator's identification to the code) *)
+Theorem C17_temperature_functions_identified : temp_probes_ok = true.
+Proof. exact temp_probes_ok_true. Qed.
+Check C17_temperature_functions_identified : temp_probes_ok = true.
+Print Assumptions C17_temperature_functions_identified.
+
+(* ---- prefix ratios (finite: every prefixed/base pair of identifiers found in the table) -------
+   metric: over the decimals as typed;  binary (kibi..yobi): over the exact values of the f64s *)
+Theorem C17_prefix_ratio_metric : forall u b k,
+  In (u, b, k) (prefix_hits metric_prefixes) -> (coef_dec u == coef_dec b * Qpow10 k)%Q.
+Proof. exact prefix_ratio_metric. Qed.
+Check C17_prefix_ratio_metric : forall u b k,
+  In (u, b, k) (prefix_hits metric_prefixes) -> (coef_dec u == coef_dec b * Qpow10 k)%Q.
+Print Assumptions C17_prefix_ratio_metric.
+
+Theorem C17_prefix_ratio_binary : forall u b k,
+  In (u, b, k) (prefix_hits binary_prefixes) -> (coef_exact u == coef_exact b * Qpow2 k)%Q.
+Proof. exact prefix_ratio_binary. Qed.
+Check C17_prefix_ratio_binary : forall u b k,
+  In (u, b, k) (prefix_hits binary_prefixes) -> (coef_exact u == coef_exact b * Qpow2 k)%Q.
+Print Assumptions C17_prefix_ratio_binary.
+Example C17_prefix_hits_nonempty : prefix_hits metric_prefixes <> [] /\ prefix_hits binary_prefixes <> [].
+Proof. split; intros H; apply (f_equal (@List.length _)) in H; vm_compute in H; discriminate. Qed.
+
+(* ---- the algebraic laws, exact over Q (with a point at infinity for the reciprocal kind),
+   unbounded over the value v, for every identifier pair / triple that resolves; [qa] is the exact
+   instance of the very code ([convert]) that the UNITS stream runs in binary64 *)
+Theorem C17_self_identity_Q : forall a b u v,
+  resolve_unit a = UOk u -> resolve_unit b = UOk u ->
+  exists r, convert qa v a b = UOk r /\ qx_eq r v.
+Proof. exact self_identity_Q. Qed.
+Check C17_self_identity_Q : forall a b u v,
+  resolve_unit a = UOk u -> resolve_unit b = UOk u ->
+  exists r, convert qa v a b = UOk r /\ qx_eq r v.
+Print Assumptions C17_self_identity_Q.
+
+Theorem C17_there_and_back_Q : forall a b ua ub v,
+  resolve_unit a = UOk ua -> resolve_unit b = UOk ub -> u_cat ua = u_cat ub ->
+  exists r1 r2, convert qa v a b = UOk r1 /\ convert qa r1 b a = UOk r2 /\ qx_eq r2 v.
+Proof. exact there_and_back_Q. Qed.
+Check C17_there_and_back_Q : forall a b ua ub v,
+  resolve_unit a = UOk ua -> resolve_unit b = UOk ub -> u_cat ua = u_cat ub ->
+  exists r1 r2, convert qa v a b = UOk r1 /\ convert qa r1 b a = UOk r2 /\ qx_eq r2 v.
+Print Assumptions C17_there_and_back_Q.
+
+Theorem C17_composition_Q : forall a b c ua ub uc v,
+  resolve_unit a = UOk ua -> resolve_unit b = UOk ub -> resolve_unit c = UOk uc ->
+  u_cat ua = u_cat ub -> u_cat ub = u_cat uc ->
+  exists r1 r2 r3, convert qa v a b = UOk r1 /\ convert qa r1 b c = UOk r2 /\
+                   convert qa v a c = UOk r3 /\ qx_eq r2 r3.
+Proof. exact composition_Q. Qed.
+Check C17_composition_Q : forall a b c ua ub uc v,
+  resolve_unit a = UOk ua -> resolve_unit b = UOk ub -> resolve_unit c = UOk uc ->
+  u_cat ua = u_cat ub -> u_cat ub = u_cat uc ->
+  exists r1 r2 r3, convert qa v a b = UOk r1 /\ convert qa r1 b c = UOk r2 /\
+                   convert qa v a c = UOk r3 /\ qx_eq r2 r3.
+Print Assumptions C17_composition_Q.
+
+(* the hypotheses of the laws are satisfiable: the first unit of the table and another unit of its
+   category are both reached through their first identifiers *)
+Example C17_law_hypotheses_satisfiable :
+  match all_units with
+  | u :: rest =>
+      existsb (fun x => if String.eqb (u_cat u) (u_cat x)
+                        then resolves_to (hd EmptyString (u_ids u)) u && resolves_to (hd EmptyString (u_ids x)) x
+                        else false) rest
+  | [] => false
+  end = true.
+Proof. vm_cast_no_check (eq_refl true). Qed.
+
+(* the batched evaluator printed by the UNITS correspondence stream is [convert] / [convert_fixed],
+   magnitude by magnitude (so the stream validates exactly the functions the theorems are about) *)
+Theorem C17_convert_many_spec : forall A fixed vs a b,
+  convert_many A fixed vs a b =
+  map (fun v => if fixed then convert_fixed A v a b else convert A v a b) vs.
+Proof. exact convert_many_spec. Qed.
+Check C17_convert_many_spec : forall A fixed vs a b,
+  convert_many A fixed vs a b =
+  map (fun v => if fixed then convert_fixed A v a b else convert A v a b) vs.
+Print Assumptions C17_convert_many_spec.
